@@ -1841,8 +1841,9 @@ func (query *Query) exec() (result any, err error) {
 		rs = nil
 		goto FINALIZE
 	}
-	if limit >= len(rs) {
-		limit = len(rs)
+	// the window ends where the sequence ends
+	if limit >= len(rs)-offset {
+		limit = len(rs) - offset
 	}
 	rs = rs[offset:][:limit]
 FINALIZE:
